@@ -23,6 +23,28 @@ def unescapeStr : Str → Str
   | '!' :: t => t
   | s => s
 
+/-! ### `is_too_deep`: the guard in front of `create_object`, `update_object`, `update`, `commit` -/
+
+/-- `utils::MAX_NESTING_DEPTH` -/
+def MAX_NESTING_DEPTH : Nat := 100
+
+mutual
+/-- `utils::nested_deeper_than(value, levels)` -/
+def nestedDeeperThan : JVal → Nat → Bool
+  | .arr l, levels => levels == 0 || nestedDeeperThanL l (levels - 1)
+  | .obj o, levels => levels == 0 || nestedDeeperThanO o (levels - 1)
+  | _, _ => false
+def nestedDeeperThanL : List JVal → Nat → Bool
+  | [], _ => false
+  | v :: t, levels => nestedDeeperThan v levels || nestedDeeperThanL t levels
+def nestedDeeperThanO : JObj → Nat → Bool
+  | [], _ => false
+  | (_, v) :: t, levels => nestedDeeperThan v levels || nestedDeeperThanO t levels
+end
+
+/-- `utils::is_too_deep(obj)` -/
+def isTooDeep (o : JObj) : Bool := nestedDeeperThanO o (MAX_NESTING_DEPTH - 1)
+
 /-- `digest_object`; `Except` error = the `bail!` messages -/
 def digestObject (H : Bytes → Str) (o : JObj) : Except String Str :=
   if o.isEmpty then .ok Rev.EMPTY
